@@ -372,6 +372,33 @@ func runC20(p *Prog, r *Report, tier string) {
 		})
 		r.Check(nG > 0, "R-OWNER.stateless", fnKey(q)+": package variables read", p.pos(q.Pos()), "only the store, its mutex and constants (pure counters excepted)", "no package variable read at all: the store anchor is lost", true)
 	}
+	// the same for the add function: the entry rendered for a message is a function of that message alone. A package
+	// variable it reads that is assigned outside the initialiser, or a package-level map / slice it fills as it goes (a
+	// cache of rendered template fields keyed by template id), makes the entry depend on earlier messages.
+	if add != nil {
+		nAdd := 0
+		seenG := map[*ssa.Global]bool{}
+		for _, f := range withClosures(add) {
+			eachInstr(f, func(in ssa.Instruction) {
+				for _, op := range in.Operands(nil) {
+					gl, ok := (*op).(*ssa.Global)
+					if !ok || gl.Pkg == nil || gl.Pkg.Pkg.Path() != modPath+"/cmd/collector" || seenG[gl] {
+						continue
+					}
+					if gl.Name() == "flowRecords" || gl.Name() == "mutex" {
+						continue
+					}
+					seenG[gl] = true
+					nAdd++
+					mutable := globalWrittenOutsideInit(p, gl) || globalContentsWritten(p, gl)
+					r.Check(!mutable, "R-OWNER.add-state", "cmd/collector.addIPFIXMessage: reads package variable "+gl.Name(), p.instrPos(in),
+						"never assigned outside the initialiser and its contents are never updated",
+						"the add function reads package state that changes at run time: the entry stored for a message then depends on earlier messages (e.g. template fields rendered once per template id and reused for a different template with the same id)", true)
+				}
+			})
+		}
+		r.Facts["R-OWNER.add-state.globals-read"] = nAdd
+	}
 	// both formats answer with the window: the JSON body is built from it and the text loop ranges over it
 	if qslice != nil {
 		nJ, okJ := 0, true
@@ -1050,4 +1077,57 @@ func labelInside(body *ast.BlockStmt, name string) bool {
 	}
 	walk(body, false)
 	return found
+}
+
+// globalContentsWritten: a map / slice / pointer held in the package variable is updated in place somewhere in its
+// package (map update or delete, element or field store through a value loaded from the variable).
+func globalContentsWritten(p *Prog, gl *ssa.Global) bool {
+	written := false
+	var viaValue func(v ssa.Value, d int)
+	viaValue = func(v ssa.Value, d int) {
+		if d > 4 || written {
+			return
+		}
+		for _, ref := range refs(v) {
+			switch y := ref.(type) {
+			case *ssa.MapUpdate:
+				if y.Map == v {
+					written = true
+				}
+			case *ssa.IndexAddr:
+				for _, r2 := range refs(y) {
+					if st, ok := r2.(*ssa.Store); ok && st.Addr == ssa.Value(y) {
+						written = true
+					}
+				}
+			case *ssa.FieldAddr:
+				for _, r2 := range refs(y) {
+					if st, ok := r2.(*ssa.Store); ok && st.Addr == ssa.Value(y) {
+						written = true
+					}
+				}
+			case *ssa.Call:
+				if calleeName(&y.Call) == "builtin:delete" && len(y.Call.Args) > 0 && y.Call.Args[0] == v {
+					written = true
+				}
+			case *ssa.Phi:
+				viaValue(y, d+1)
+			case *ssa.Slice:
+				viaValue(y, d+1)
+			case *ssa.ChangeType:
+				viaValue(y, d+1)
+			}
+		}
+	}
+	for _, f := range p.RepoFns {
+		if f.Pkg == nil || f.Pkg != gl.Pkg || written {
+			continue
+		}
+		eachInstr(f, func(in ssa.Instruction) {
+			if u, ok := in.(*ssa.UnOp); ok && u.Op == token.MUL && u.X == ssa.Value(gl) {
+				viaValue(u, 0)
+			}
+		})
+	}
+	return written
 }
